@@ -132,4 +132,169 @@ impl<'a> BytesText<'a> {
     }
 //@end
 }
+
+// ---- from_reader hands out OWNED events, from_str BORROWED ones: the conversion keeps every byte ----
+/// std: `Cow::<[u8]>::into_owned` gives a vector with the same bytes (borrowed: a copy; owned: the vector itself)
+pub axiom fn axiom_into_owned_bytes<'a>(c: Cow<'a, [u8]>)
+    ensures spec_cow_into_owned(c)@ == c@;
+
+impl<'a> BytesStart<'a> {
+//@extract events::BytesStart::into_owned | src/events/mod.rs :: impl<'a> BytesStart<'a> :: fn into_owned | serves=C14
+ pub fn into_owned(self) -> (r: BytesStart<'static>)
+        // C14: the owned event has the same bytes and the same name length
+        ensures r.buf@ == self.buf@, r.name_len == self.name_len
+ {
+        proof { axiom_into_owned_bytes(self.buf); }
+        BytesStart {
+            buf: Cow::Owned(self.buf.into_owned()),
+            name_len: self.name_len,
+        }
+    }
+//@end
+}
+impl<'a> BytesEnd<'a> {
+//@extract events::BytesEnd::into_owned | src/events/mod.rs :: impl<'a> BytesEnd<'a> :: fn into_owned | serves=C14
+ pub fn into_owned(self) -> (r: BytesEnd<'static>)
+        ensures r.name@ == self.name@
+ {
+        proof { axiom_into_owned_bytes(self.name); }
+        BytesEnd {
+            name: Cow::Owned(self.name.into_owned()),
+        }
+    }
+//@end
+}
+impl<'a> BytesText<'a> {
+//@extract events::BytesText::into_owned | src/events/mod.rs :: impl<'a> BytesText<'a> :: fn into_owned | serves=C14
+ pub fn into_owned(self) -> (r: BytesText<'static>)
+        ensures r.content@ == self.content@, r.decoder == self.decoder
+ {
+        proof { axiom_into_owned_bytes(self.content); }
+        BytesText {
+            content: self.content.into_owned().into(),
+            decoder: self.decoder,
+        }
+    }
+//@end
+}
+impl<'a> BytesCData<'a> {
+//@extract events::BytesCData::into_owned | src/events/mod.rs :: impl<'a> BytesCData<'a> :: fn into_owned | serves=C14
+ pub fn into_owned(self) -> (r: BytesCData<'static>)
+        ensures r.content@ == self.content@, r.decoder == self.decoder
+ {
+        proof { axiom_into_owned_bytes(self.content); }
+        BytesCData {
+            content: self.content.into_owned().into(),
+            decoder: self.decoder,
+        }
+    }
+//@end
+}
+
+//@extract de::PayloadEvent | src/de/mod.rs :: enum PayloadEvent | serves=C14 features=serialize
+ pub enum PayloadEvent<'a> {
+    /// Start tag (with attributes) `<tag attr="value">`.
+    Start(BytesStart<'a>),
+    /// End tag `</tag>`.
+    End(BytesEnd<'a>),
+    /// Escaped character data between tags.
+    Text(BytesText<'a>),
+    /// Unescaped character data stored in `<![CDATA[...]]>`.
+    CData(BytesCData<'a>),
+    /// Document type definition data (DTD) stored in `<!DOCTYPE ...>`.
+    DocType(BytesText<'a>),
+    /// End of XML document.
+    Eof,
+}
+//@end
+/// same kind, same bytes, same name length
+pub open spec fn same_payload<'a, 'b>(a: PayloadEvent<'a>, b: PayloadEvent<'b>) -> bool {
+    match (a, b) {
+        (PayloadEvent::Start(x), PayloadEvent::Start(y)) => x.buf@ == y.buf@ && x.name_len == y.name_len,
+        (PayloadEvent::End(x), PayloadEvent::End(y)) => x.name@ == y.name@,
+        (PayloadEvent::Text(x), PayloadEvent::Text(y)) => x.content@ == y.content@ && x.decoder == y.decoder,
+        (PayloadEvent::CData(x), PayloadEvent::CData(y)) => x.content@ == y.content@ && x.decoder == y.decoder,
+        (PayloadEvent::DocType(x), PayloadEvent::DocType(y)) => x.content@ == y.content@ && x.decoder == y.decoder,
+        (PayloadEvent::Eof, PayloadEvent::Eof) => true,
+        _ => false,
+    }
+}
+/// what the start trimmer makes of a raw event when `trim_start` is set or not: comments, processing instructions,
+/// declarations and empty-element events are dropped; a text loses its leading whitespace if the previous payload
+/// event was markup, and is dropped if nothing is left
+pub open spec fn trim_spec<'a>(trim_start: bool, e: Event<'a>, r: Option<PayloadEvent<'a>>, trim_next: bool) -> bool {
+    match e {
+        Event::DocType(x) => r == Some(PayloadEvent::DocType(x)) && trim_next,
+        Event::Start(x) => r == Some(PayloadEvent::Start(x)) && trim_next,
+        Event::End(x) => r == Some(PayloadEvent::End(x)) && trim_next,
+        Event::Eof => r == Some(PayloadEvent::<'a>::Eof) && trim_next,
+        Event::CData(x) => r == Some(PayloadEvent::CData(x)) && !trim_next,
+        Event::Text(x) => {
+            let c = if trim_start { trimmed_start(x.content@) } else { x.content@ };
+            if trim_start && c.len() == 0 { r is None && trim_next == trim_start }
+            else { r matches Some(PayloadEvent::Text(y)) && y.content@ == c && y.decoder == x.decoder && !trim_next }
+        },
+        _ => r is None && trim_next == trim_start,
+    }
+}
+impl<'a> PayloadEvent<'a> {
+//@extract de::PayloadEvent::into_owned | src/de/mod.rs :: impl<'a> PayloadEvent<'a> :: fn into_owned | serves=C14 features=serialize
+    fn into_owned(self) -> (r: PayloadEvent<'static>)
+        // C14: what from_reader hands out is, byte for byte, what from_str hands out
+        ensures same_payload(self, r)
+    {
+        match self {
+            PayloadEvent::Start(e) => PayloadEvent::Start(e.into_owned()),
+            PayloadEvent::End(e) => PayloadEvent::End(e.into_owned()),
+            PayloadEvent::Text(e) => PayloadEvent::Text(e.into_owned()),
+            PayloadEvent::CData(e) => PayloadEvent::CData(e.into_owned()),
+            PayloadEvent::DocType(e) => PayloadEvent::DocType(e.into_owned()),
+            PayloadEvent::Eof => PayloadEvent::Eof,
+        }
+    }
+//@end
+}
+//@extract de::StartTrimmer | src/de/mod.rs :: struct StartTrimmer | serves=C14 features=serialize
+////////////////////////////////////////////////////////////////////////////////////////////////////
+
+/// Helper struct that contains a state for an algorithm of converting events
+/// from raw events to semi-trimmed events that is independent from a way of
+/// events reading.
+pub struct StartTrimmer {
+    /// If `true`, then leading whitespace will be removed from next returned
+    /// [`Event::Text`]. This field is set to `true` after reading each event
+    /// except [`Event::Text`] and [`Event::CData`], so [`Event::Text`] events
+    /// read right after them does not trimmed.
+    trim_start: bool,
+}
+//@end
+impl StartTrimmer {
+//@extract de::StartTrimmer::trim | src/de/mod.rs :: impl StartTrimmer :: fn trim | serves=C14 features=serialize
+    fn trim<'a>(&mut self, event: Event<'a>) -> (r: Option<PayloadEvent<'a>>)
+        // C14: one function serves both paths; what it does depends on the event and the flag only
+        ensures trim_spec(old(self).trim_start, event, r, final(self).trim_start)
+    {
+        let (event, trim_next_event) = match event {
+            Event::DocType(e) => (PayloadEvent::DocType(e), true),
+            Event::Start(e) => (PayloadEvent::Start(e), true),
+            Event::End(e) => (PayloadEvent::End(e), true),
+            Event::Eof => (PayloadEvent::Eof, true),
+
+            // Do not trim next text event after Text or CDATA event
+            Event::CData(e) => (PayloadEvent::CData(e), false),
+            Event::Text(mut e) => {
+                // If event is empty after trimming, skip it
+                if self.trim_start && e.inplace_trim_start() {
+                    return None;
+                }
+                (PayloadEvent::Text(e), false)
+            }
+
+            _ => return None,
+        };
+        self.trim_start = trim_next_event;
+        Some(event)
+    }
+//@end
+}
 }
